@@ -400,6 +400,33 @@ def run(ctx):
                    % (NT, npath, nrun, nres))
     cov['impl_model_disagreements'] = ndis
     cov['impl_property_failures'] = nbad
+    # ---- operations addressed the "simple device" way (route_path=False, send_path='': no Unconnected Send wrapper at all): a bundle carries
+    # its operations' paths also when those are falsy values, and the results do not depend on bundling
+    proc, port = start_simulator()
+    try:
+        sops = [dict(path=[{'symbolic': 'T'}, {'element': k % 8}], elements=1, method='read', route_path=False, send_path='') for k in range(5)]
+        sops.insert(2, dict(path=[{'symbolic': 'S'}, {'element': 1}], elements=2, tag_type=195, data=[31, 32], method='write', route_path=False, send_path=''))
+        sops.append(dict(path=[{'symbolic': 'NoSuchTag'}], elements=1, method='read', route_path=False, send_path=''))
+        base = None
+        for depth, multiple in ((0, 0), (0, 250), (2, 120), (3, 0)):
+            results, sent, events, err = run_ops(port, sops, depth, multiple, False)
+            nrun += 1
+            w = dict(operations='7 operations with route_path=False, send_path=\'\'', depth=depth, multiple=multiple, error=err, results=[(r[1], r[2]) for r in results],
+                     wire=[(n, rp, sp) for n, rp, sp, sc in sent])
+            if err or len(results) != len(sops):
+                bad(w, 'the client yielded %d results for %d operations addressed without a route path%s' % (len(results), len(sops), ' (%s)' % err if err else '')); break
+            if any(rp is not False or sp != '' for n, rp, sp, sc in sent):
+                bad(w, 'a request or bundle went out with a route / send path other than its operations\' (route_path=False, send_path=\'\')'); break
+            if base is None:
+                base = [(r[1], r[2]) for r in results]
+            elif [(r[1], r[2]) for r in results] != base:
+                bad(dict(w, unbundled=base), 'results differ between bundling settings'); break
+    finally:
+        proc.terminate()
+        try:
+            proc.wait(5)
+        except Exception:
+            proc.kill()
     # ---- "... or raises": the connection ends right after the K-th reply frame (every K): the pipeline raises, or has every result
     from props import c13
     proc, port = start_simulator()
